@@ -427,6 +427,36 @@ func runC05(p *Prog, r *Report) {
 			}
 		}
 	})
+	// the same two answers chosen by index first (origin := 0; …; origin = lastScanned; break;
+	// list[origin]): every way the index is set is the constant 0 or the latest scanned index
+	forEachInstr(fn, func(_ *ssa.BasicBlock, _ int, in ssa.Instruction) {
+		u, ok := in.(*ssa.UnOp)
+		if !ok {
+			return
+		}
+		ia, ok := u.X.(*ssa.IndexAddr)
+		if !ok {
+			return
+		}
+		sl, ok := ia.X.Type().Underlying().(*types.Slice)
+		if !ok {
+			return
+		}
+		if n := namedOf(sl.Elem()); n == nil || n.Obj().Name() != "LayerDetails" {
+			return
+		}
+		ph, isPhi := ia.Index.(*ssa.Phi)
+		if !isPhi || ph == lastPhi || ph == scanPhi || naturalLoop(hdr)[u.Block()] {
+			return
+		}
+		for _, l := range phiLeavesStop(ph, u.Block(), func(v ssa.Value) bool { return v == ssa.Value(lastPhi) || v == ssa.Value(scanPhi) }) {
+			if k, isK := constInt(l.val); isK && k == 0 {
+				okDef = true
+				continue
+			}
+			r.Check(l.val == ssa.Value(lastPhi), "D3-skip", fa.key+":origin", p.Pos(u.Pos()), "origin = details of the latest scanned layer", "when a package is absent from an earlier view its origin is not set to the latest layer that was actually scanned (the layer after the gap)")
+		}
+	})
 	r.Check(okDef, "D3-skip", fa.key+":default-first-layer", p.Pos(fn.Pos()), "present in every view ⇒ first layer", "a package present in every examined view is not attributed to the first layer")
 
 	// ---- D5 ScanContainer
